@@ -400,7 +400,8 @@ class Result:
             rdir = EVID / 'replay' / self.pid
             rdir.mkdir(parents=True, exist_ok=True)
             seen = set()
-            for i, (key, what, replay) in enumerate(new[:20]):
+            cap = int(os.environ.get('VERIF_MAXVIOL', '20'))
+            for i, (key, what, replay) in enumerate(new[:cap]):
                 name = re.sub(r'[^A-Za-z0-9_.-]+', '_', key)[:80]
                 if name in seen:
                     name += f'_{i}'
